@@ -119,10 +119,17 @@ func call(overrideFN *string, namespace types.EnvType, fIn types.MalType, args .
 		if _hm == nil {
 			_hm = types.HashMap{Val: make(map[string]types.MalType)}
 		}
-		hm := _hm.(types.HashMap)
-		set, ok := hm.Val[packageName].(types.Set)
-		if !ok {
-			set = types.Set{Val: make(map[string]struct{})}
+		// _PACKAGES_ is visible to lisp programs: build new map and set values
+		// instead of writing into the ones already bound (lisp values are immutable)
+		hm := types.HashMap{Val: make(map[string]types.MalType)}
+		for k, v := range _hm.(types.HashMap).Val {
+			hm.Val[k] = v
+		}
+		set := types.Set{Val: make(map[string]struct{})}
+		if oldSet, ok := hm.Val[packageName].(types.Set); ok {
+			for k := range oldSet.Val {
+				set.Val[k] = struct{}{}
+			}
 		}
 		set.Val[functionName] = struct{}{}
 		hm.Val[packageName] = set
